@@ -81,7 +81,8 @@ def case_dir():
 
 _FRAME_RE = re.compile(r"#\d+ 0x[0-9a-f]+ in (\S+)")
 _UB_RE = re.compile(r"([\w./-]+):(\d+):\d+: runtime error: (.*)")
-_UB_SOFT = ("signed integer overflow", "shift exponent", "left shift of", "is outside the range of representable values")
+_UB_SOFT = ("signed integer overflow", "shift exponent", "left shift of", "is outside the range of representable values",
+            "null pointer passed as argument")
 
 
 def parse_san_logs(d, extra_text=b""):
@@ -182,7 +183,7 @@ def run(cmd, env=None, stdin=b"", timeout=60, cwd=None, cpu=None, mem_mb=None, s
     else:
         r.rc = p.returncode
     if san:
-        r.san, r.ub = parse_san_logs(d)
+        r.san, r.ub = parse_san_logs(d, extra_text=r.err if (b"runtime error:" in r.err or b"Sanitizer" in r.err) else b"")
     if not keep_dir:
         # keep only if something interesting; caller may copy
         pass
